@@ -1,7 +1,7 @@
 (* C04 - active_vertices_connected holds exactly for connected (or tree) active sets *)
 From Coq Require Import ZArith List Bool Arith.
 From Cspuz Require Import Lib.PyErr Core.Expr Core.Program Core.Build
-  Graph.GraphModel Graph.ReachProofs Graph.Avc Graph.AvcCert Graph.AvcSem Graph.AvcProofs.
+  Graph.GraphModel Graph.ReachProofs Graph.Avc Graph.AvcCert Graph.AvcSem Graph.AvcProofs Graph.AvcTyping Graph.AvcTotal.
 Import ListNotations.
 Local Open Scope nat_scope.
 
@@ -98,3 +98,19 @@ Theorem connected_b_decides : forall g act,
   wf_graph g = true -> (connected_b g act = true <-> connected g act).
 Proof. exact connected_b_spec. Qed.
 Print Assumptions connected_b_decides.
+
+(* no well-formed call raises: graph endpoints in range, at least one vertex,
+   one BoolExpr / Python bool per vertex *)
+Theorem post_avc_succeeds : forall st acts g acyclic,
+  wf_graph g = true -> 1 <= nv g -> nv g <= length acts ->
+  (forall a, In a acts -> is_bool_expr_like a = true) ->
+  exists st', post_avc st acts g acyclic false = Ok st'.
+Proof. exact AvcTotal.post_avc_succeeds. Qed.
+Print Assumptions post_avc_succeeds.
+
+(* well-typed boolean trees (what the public constructors build) are defined
+   under every assignment: the hypothesis acts_defined is a syntactic check *)
+Theorem wt_acts_defined : forall en acts,
+  forallb (wt true) acts = true -> acts_defined en acts.
+Proof. exact AvcTyping.wt_acts_defined. Qed.
+Print Assumptions wt_acts_defined.
